@@ -60,6 +60,64 @@ theorem cropBox_window (v : Nat → Nat → Bool) (rows cols r0 r1 c0 c1 : Nat)
     obtain ⟨rfl, rfl, rfl, rfl⟩ := hb
     exact ⟨rfl, rfl, rfl, rfl⟩
 
+/-- (TRANSLATED) `crop` measures its margins on the FINITE samples (the validity notion of the statistics) -/
+theorem gen_crop_validity_is_finite : Generated.C12.cropValidityIsFinite = true := by decide
+
+/-- `Interferogram.crop` assembled ONLY from translated pieces: the four margins (which axis `any` reduces, forward / reversed
+    `argmax`), the early-return test and the two slices of every branch (NumPy bound normalisation included) -/
+def cropSource (v : Nat → Nat → Bool) (rows cols : Nat) : Option (Nat × Nat × Nat × Nat) :=
+  let l : Int := Generated.C12.cropLeft v rows cols
+  let r : Int := Generated.C12.cropRight v rows cols
+  let t : Int := Generated.C12.cropTop v rows cols
+  let b : Int := Generated.C12.cropBottom v rows cols
+  if Generated.C12.cropReturnsEarly l r t b = true then none
+  else some ((Generated.C12.cropRowLo l r t b rows cols).toNat, (Generated.C12.cropRowHi l r t b rows cols).toNat,
+             (Generated.C12.cropColLo l r t b rows cols).toNat, (Generated.C12.cropColHi l r t b rows cols).toNat)
+
+/-- the translated early-return test and slices, for ANY four margins that either leave a valid row / column or are both 0
+    (no valid sample), give the model's window `[l, rows - r) x [t, cols - b)` resp. the early return -/
+theorem crop_core (l r t b rows cols : Nat) (hR : l + r < rows ∨ (l = 0 ∧ r = 0)) (hC : t + b < cols ∨ (t = 0 ∧ b = 0)) :
+    (if Generated.C12.cropReturnsEarly (l : Int) r t b = true then none
+     else some ((Generated.C12.cropRowLo l r t b rows cols).toNat, (Generated.C12.cropRowHi l r t b rows cols).toNat,
+             (Generated.C12.cropColLo l r t b rows cols).toNat, (Generated.C12.cropColHi l r t b rows cols).toNat)) =
+    (if l = 0 ∧ r = 0 ∧ t = 0 ∧ b = 0 then none else some (l, rows - r, t, cols - b)) := by
+  simp only [Generated.C12.cropReturnsEarly, Generated.C12.cropRowLo, Generated.C12.cropRowHi,
+    Generated.C12.cropColLo, Generated.C12.cropColHi, normIdx, decide_eq_true_eq]
+  by_cases h : l = 0 ∧ r = 0 ∧ t = 0 ∧ b = 0
+  · obtain ⟨rfl, rfl, rfl, rfl⟩ := h
+    simp
+  · rw [if_neg (by omega), if_neg h]
+    congr 1
+    refine Prod.ext ?_ (Prod.ext ?_ (Prod.ext ?_ ?_)) <;> simp only [] <;> (repeat' split) <;> omega
+
+/-- (TRANSLATED, end to end) the `crop` of the current source — margins, early return and slices as translated — computes the
+    model's `cropBox` for EVERY validity matrix of EVERY shape (all-invalid, already tight, 0-sized included); so
+    `crop_keeps_valid`, `crop_window`, `crop_idempotent` are statements about the source's crop -/
+theorem crop_source_is_cropBox (v : Nat → Nat → Bool) (rows cols : Nat) :
+    cropSource v rows cols = cropBox v rows cols := by
+  have hR : argmaxB (rowAny v rows cols) + argmaxB (rowAny v rows cols).reverse < rows ∨
+      (argmaxB (rowAny v rows cols) = 0 ∧ argmaxB (rowAny v rows cols).reverse = 0) := by
+    cases h : (rowAny v rows cols).any id
+    · exact Or.inr (margins_zero _ h)
+    · left; have := margins_lt _ h; rwa [rowAny_length] at this
+  have hC : argmaxB (colAny v rows cols) + argmaxB (colAny v rows cols).reverse < cols ∨
+      (argmaxB (colAny v rows cols) = 0 ∧ argmaxB (colAny v rows cols).reverse = 0) := by
+    cases h : (colAny v rows cols).any id
+    · exact Or.inr (margins_zero _ h)
+    · left; have := margins_lt _ h; rwa [colAny_length] at this
+  simp only [cropSource, cropBox, Generated.C12.cropLeft, Generated.C12.cropRight, Generated.C12.cropTop,
+    Generated.C12.cropBottom]
+  exact crop_core _ _ _ _ rows cols hR hC
+
+/-- cropping twice, through the TRANSLATED crop: the second call returns early -/
+theorem crop_source_idempotent (v : Nat → Nat → Bool) (rows cols r0 r1 c0 c1 : Nat)
+    (hb : cropSource v rows cols = some (r0, r1, c0, c1)) :
+    cropSource (fun i j => v (i + r0) (j + c0)) (r1 - r0) (c1 - c0) = none := by
+  rw [crop_source_is_cropBox] at hb ⊢
+  exact cropBox_idempotent v rows cols r0 r1 c0 c1 hb
+
+example : cropSource (fun i j => decide (1 ≤ i ∧ i ≤ 2 ∧ 2 ≤ j ∧ j ≤ 3)) 4 5 = some (1, 3, 2, 4) := by decide
+
 /-- (TRANSLATED) the five statistics of `prysm.util`, read as list expressions over the valid samples, ARE the model's:
     `mean`, `pv = max - min`, `rms = sqrt (mean square)`, `Sa = sum |v - mean| / n`, `std = sqrt (variance)` -/
 theorem gen_util_stats {K : Type} [Num K] [LT K] [DecidableLT K] (absf sqrtf : K → K) (v : List K) :
